@@ -107,13 +107,27 @@ def make_rule(subjects, verb, imp, exc, objects, anything=False):
     return _apply_filters(r, objects)
 
 
+BATCH = [list]   # container type used for batched names: the API takes `str | Sequence[str]`, so a tuple is as good as a list
+
+
+class batch_as:
+    def __init__(self, t):
+        self.t = {"list": list, "tuple": tuple}.get(t, t)
+
+    def __enter__(self):
+        BATCH.append(self.t)
+
+    def __exit__(self, *a):
+        BATCH.pop()
+
+
 def _apply_filters(r, filters):
     kinds = {k for k, _ in filters}
     if len(kinds) != 1:
         raise ValueError("one filter kind per side")
     kind = kinds.pop()
     names = [n for _, n in filters]
-    arg = names[0] if len(names) == 1 else names
+    arg = names[0] if len(names) == 1 else BATCH[-1](names)
     if kind == "name":
         return r.are_named(arg)
     if kind == "sub":
